@@ -637,8 +637,13 @@ def op_line(op):
         return "lpop %d %d" % (op[1], op[2])
     if k == "setitem":
         return "setitem %d %d %d" % (op[1], op[2], op[3])
-    if k in ("delslice", "setslice"):
-        return "%s %d %s" % (k, op[1], op[2])       # script text only
+    if k in ("delslice", "setslice"):       # script text only
+        sl = op[2]
+        t = "%s %d %s %s %s" % (k, op[1], opt(sl.start), opt(sl.stop),
+                                opt(sl.step))
+        if k == "setslice":
+            t += " %s%s" % (op[4], "".join(" %d" % v for v in op[3]))
+        return t
     if k == "lremove":
         return "lremove %d %d" % (op[1], op[2])
     if k in ("reverse", "lclear"):
@@ -648,6 +653,120 @@ def op_line(op):
     if k == "setpayload":
         return "setpayload %d %s" % (op[1], pl_str(op[2]))
     raise ValueError(k)
+
+
+def parse_line(line, impl=None):
+    """inverse of op_line (for --replay)"""
+    t = line.split()
+    k = t[0]
+
+    def o(x):
+        return None if x == "-" else int(x)
+
+    def pl(x):
+        if x == "-":
+            return None
+        return (x[0], int(x[1:]))
+    if k == "mkir":
+        return ("mkir", int(t[1]))
+    if k == "mk":
+        kids = []
+        for a in t[4:]:
+            slot, vs = a.split(":")
+            kids.append((slot, [int(v) for v in vs.split(",") if v]))
+        return ("mk", t[1], int(t[2]), o(t[3]), kids)
+    if k == "mksym":
+        return ("mksym", int(t[1]), int(t[2]), pl(t[3]), o(t[4]))
+    if k == "setparent":
+        return ("setparent", int(t[1]), o(t[2]))
+    if k in ("add", "discard", "remove", "pop"):
+        return (k, int(t[1]), t[2], int(t[3]))
+    if k == "popempty":
+        return ("popempty", int(t[1]), t[2])
+    if k == "clear":
+        return ("clear", int(t[1]), t[2], [int(v) for v in t[3:]])
+    if k == "update":
+        return ("update", int(t[1]), t[2], [int(v) for v in t[3:]], "update")
+    if k in ("isub", "ixor"):
+        vs = [int(v) for v in t[3:]]
+        it = set(impl.nodes[c] for c in vs) if impl else set()
+        return (k, int(t[1]), t[2], vs, it)
+    if k == "iand":
+        i = t.index("/")
+        vs = [int(v) for v in t[3:i]]
+        it = set(impl.nodes[c] for c in vs) if impl else set()
+        return ("iand", int(t[1]), t[2], vs, it, [int(v) for v in t[i + 1:]])
+    if k == "insert":
+        return ("insert", int(t[1]), int(t[2]), int(t[3]))
+    if k == "append":
+        return ("append", int(t[1]), int(t[2]))
+    if k == "extend":
+        return ("extend", int(t[1]), [int(v) for v in t[2:]], "extend")
+    if k in ("delitem", "lpop"):
+        return (k, int(t[1]), int(t[2]))
+    if k == "setitem":
+        return ("setitem", int(t[1]), int(t[2]), int(t[3]))
+    if k == "lremove":
+        return ("lremove", int(t[1]), int(t[2]))
+    if k in ("reverse", "lclear"):
+        return (k, int(t[1]))
+    if k == "setname":
+        return ("setname", int(t[1]), int(t[2]))
+    if k == "setpayload":
+        return ("setpayload", int(t[1]), pl(t[2]), "value")
+    if k == "delslice":
+        return ("delslice", int(t[1]), slice(o(t[2]), o(t[3]), o(t[4])))
+    if k == "setslice":
+        return ("setslice", int(t[1]), slice(o(t[2]), o(t[3]), o(t[4])),
+                [int(v) for v in t[6:]], t[5])
+    raise ValueError("cannot parse %r" % line)
+
+
+def replay_script(script, out=print):
+    """re-execute a recorded history on the current tree: implementation vs
+    abstract specification after every step; reports the first divergence"""
+    sp, im = Spec(), Impl()
+    for n, line in enumerate(script):
+        if line.startswith("load") or line.startswith("move") or \
+                line.startswith("addr"):
+            out("step %d: %r cannot be replayed from text; stopping" % (n, line))
+            return None
+        try:
+            op = parse_line(line, im)
+        except ValueError as e:
+            out("step %d: %s" % (n, e))
+            return None
+        if op[0] == "pop":
+            op_impl = ("pop", op[1], op[2])
+        else:
+            op_impl = op
+        try:
+            want_exc = sp.apply(op)
+        except Outside as o:
+            want_exc = "outside:%s" % o
+        try:
+            exc, extra = im.apply(op_impl)
+        except tuple(EXC_NAMES) as e:
+            exc = EXC_NAMES[type(e)]
+        except Exception as e:   # noqa
+            exc = "Other:" + type(e).__name__
+        a, b = im.snapshot(), sp.snapshot()
+        if str(want_exc).startswith("outside"):
+            cons = consistent(im)
+            out("step %d %r: outside the specification (K1 pattern); "
+                "consistency of the real objects: %s" % (n, line,
+                                                         cons or "ok"))
+            return cons
+        if exc != want_exc or a != b:
+            out("REPRODUCED at step %d %r: exception %s (expected %s); parts "
+                "that differ: %s" % (n, line, exc, want_exc,
+                                     sorted(diff_parts(a, b))))
+            out("  implementation: " + a[:1500])
+            out("  specification : " + b[:1500])
+            return (n, line)
+    out("not reproduced: all %d steps agree with the specification on the "
+        "current tree" % len(script))
+    return None
 
 
 EXC_NAMES = {KeyError: "KeyError", ValueError: "ValueError",
@@ -667,6 +786,7 @@ class History:
         self.next_uuid = 100
         self.uuid_pool = []
         self.failed_parts = set()
+        self.loaded = False
         self.pending_seed = self.seed_ops() if rng.random() < 0.9 else []
 
     # ---- generation helpers
@@ -860,6 +980,8 @@ class History:
     def step(self):
         """returns False when the history must stop"""
         ctx, rng, sp, im = self.ctx, self.rng, self.spec, self.impl
+        if not self.pending_seed and not self.loaded and rng.random() < 0.03:
+            return self.load_step()
         op = self.gen_op()
         if op is None:
             return True
@@ -1006,6 +1128,104 @@ class History:
             self.impl_out.append("KeyError")
         else:
             self.impl_out.append((exc or "ok") + " | " + after)
+        return True
+
+    # ---- load as an operation of the history
+    def loadable(self, i):
+        """is IR i self-contained in the loader's sense (referents in the
+        same or an earlier module)?"""
+        sp = self.spec
+        seen_blocks = set()
+        for m in sp.mods[i]:
+            seen_blocks |= set(sp.descendants(m, ["code", "data", "proxy"]))
+            for y in sp.kids(m, "syms"):
+                pl = sp.payload.get(y)
+                if pl is not None and pl[0] == "b" and pl[1] not in seen_blocks:
+                    return False
+        return True
+
+    def load_step(self):
+        """save an IR of the universe and load it: the loaded IR joins the
+        universe (same UUIDs in another IR); the model and the specification
+        see it as the constructor calls that build the same structure."""
+        import io
+        ctx, sp, im = self.ctx, self.spec, self.impl
+        irs = [x for x in self.of_kind(["ir"]) if self.loadable(x)]
+        if not irs or sp.n > 24 or self.loaded:
+            return True
+        i = self.rng.choice(irs)
+        self.loaded = True
+        g = im.g
+        buf = io.BytesIO()
+        try:
+            with core.time_limit(30):
+                im.nodes[i].save_protobuf_file(buf)
+                buf.seek(0)
+                ir2 = g.IR.load_protobuf_file(buf)
+        except (Exception, core.ImplTimeout) as e:   # noqa
+            ctx.report({"kind": "load-in-history", "exception":
+                        type(e).__name__}, {"script": list(self.script)},
+                       "save + load of IR %d inside a history raised %s: %s"
+                       % (i, type(e).__name__, str(e)[:80]))
+            return False
+        self.script.append("load %d" % i)
+        ops, objs = [], []
+        new_id = {}
+        nxt = [sp.n]
+
+        def add(obj, op, kind, u):
+            new_id[id(obj)] = nxt[0]
+            nxt[0] += 1
+            ops.append(op)
+            objs.append((obj, kind, u))
+        add(ir2, ("mkir", ir2.uuid.int), "ir", ir2.uuid.int)
+        for m in ir2.modules:
+            add(m, ("mk", "module", m.uuid.int, new_id[id(ir2)], []),
+                "module", m.uuid.int)
+            for p in sorted(m.proxies, key=lambda n: n.uuid.int):
+                add(p, ("mk", "proxy", p.uuid.int, new_id[id(m)], []),
+                    "proxy", p.uuid.int)
+            for s in sorted(m.sections, key=lambda n: n.uuid.int):
+                add(s, ("mk", "section", s.uuid.int, new_id[id(m)], []),
+                    "section", s.uuid.int)
+                for x in sorted(s.byte_intervals, key=lambda n: n.uuid.int):
+                    add(x, ("mk", "interval", x.uuid.int, new_id[id(s)], []),
+                        "interval", x.uuid.int)
+                    for b in sorted(x.blocks, key=lambda n: n.uuid.int):
+                        kd = "code" if isinstance(b, g.CodeBlock) else "data"
+                        add(b, ("mk", kd, b.uuid.int, new_id[id(x)], []), kd,
+                            b.uuid.int)
+            for y in sorted(m.symbols, key=lambda n: n.uuid.int):
+                if y.referent is not None:
+                    pl = ("b", new_id.get(id(y.referent), 10**6))
+                elif y.value is not None:
+                    pl = ("i", y.value)
+                else:
+                    pl = None
+                add(y, ("mksym", y.uuid.int, im.code_of_name(y.name), pl,
+                        new_id[id(m)]), "symbol", y.uuid.int)
+        for (obj, kind, u), op in zip(objs, ops):
+            sp.apply(op)
+            im.reg(obj, kind, u)
+            self.lines.append(op_line(op))
+            self.impl_out.append(None)
+        after = im.snapshot()
+        want = sp.snapshot()
+        ctx.evaluations += 1
+        ctx.count("op:load")
+        ctx.nontriv(("load", min(len(ops) // 4, 6)))
+        if after != want:
+            which = diff_parts(after, want)
+            if ctx.prop in which or ctx.prop not in ("C03", "C04", "C10",
+                                                     "C16"):
+                ctx.report({"kind": "graph-semantics", "op": "load"},
+                           {"script": list(self.script), "impl_after": after,
+                            "expected": want, "parts": sorted(which)},
+                           "after loading a saved IR the observable state "
+                           "differs from the specification in %s"
+                           % sorted(which))
+            return False
+        self.impl_out[-1] = "ok | " + after
         return True
 
     def finish(self, tie):
